@@ -2491,6 +2491,21 @@ func (a *Association) acceptPayloadData(chunkPayload *chunkPayloadData) bool {
 		return false
 	}
 
+	if !chunkPayload.isIData() && !chunkPayload.unordered && stream.isBehindNextSSN(chunkPayload.streamSequenceNumber) {
+		// A chunk with a TSN never seen before cannot belong to a message that was
+		// already delivered: with 16-bit stream sequence numbers this is a message
+		// 2^15 or more ahead of the reader (a long backlog of small unread
+		// messages). The reassembly queue would discard it as stale, so it must not
+		// be acknowledged either: leave it to be retransmitted once the reader has
+		// caught up, like a chunk that does not fit the receive buffer.
+		a.log.Debugf(
+			"[%s] ssn=%d is not placeable yet. dropping DATA with tsn=%d",
+			a.name, chunkPayload.streamSequenceNumber, chunkPayload.tsn,
+		)
+
+		return true
+	}
+
 	if a.getMyReceiverWindowCredit() > 0 {
 		// Pass the new chunk to stream level as soon as it arrives
 		return a.pushPayloadDataToStream(stream, chunkPayload)
